@@ -37,6 +37,17 @@ def tcode(t):
     return int(t) if t == int(t) else int(round(t * 1000000))    # float families (implementation-only): micro units
 
 
+def _closing(e):
+    """was this exception raised while a GeneratorExit was being handled (coroutine.close() in progress)?"""
+    seen = 0
+    while e is not None and seen < 50:
+        if isinstance(e, GeneratorExit):
+            return True
+        e = e.__context__
+        seen += 1
+    return False
+
+
 class Budget(BaseException):
     pass
 
@@ -414,10 +425,14 @@ class Env:
                     await self.block(body, actor)
                 except BaseException as e:
                     h = None
-                    for pat, hb in handlers:
-                        if self.matches(pat, e):
-                            h = hb
-                            break
+                    # a coroutine that is being closed handles nothing: what passes by is (a replacement of) its
+                    # GeneratorExit -- otherwise it would depend on how the program is cut into coroutine frames
+                    # whether the code after the handler still runs
+                    if not _closing(e):
+                        for pat, hb in handlers:
+                            if self.matches(pat, e):
+                                h = hb
+                                break
                     if h is None:
                         raise
                     self.emit([3] + self.code(e))
